@@ -15,6 +15,28 @@ fn count(hay: &str, needle: &str) -> usize { hay.matches(needle).count() }
 /// alpha::Compiler::analyze_and_resolve: the sorted error codes and the lint codes
 fn alpha_rest(decls: Vec<penne::alpha::common::Declaration>) -> String { alpha_rest_full(decls).0 }
 
+// C06 on the RESOLVED tree (what the generator consumes): a `loop` that is not the last statement of a block
+fn misplaced_loops_in(stmt: &penne::alpha::resolved::Statement, allowed: bool) -> usize {
+    use penne::alpha::resolved::Statement;
+    match stmt {
+        Statement::Loop => if allowed { 0 } else { 1 },
+        Statement::If { then_branch, else_branch, .. } =>
+            misplaced_loops_in(then_branch, false) + else_branch.as_ref().map(|e| misplaced_loops_in(e, false)).unwrap_or(0),
+        Statement::Block(block) => {
+            let n = block.statements.len();
+            block.statements.iter().enumerate().map(|(i, s)| misplaced_loops_in(s, i + 1 == n)).sum()
+        }
+        _ => 0,
+    }
+}
+
+fn misplaced_loops(decls: &[penne::alpha::resolved::Declaration]) -> usize {
+    decls.iter().map(|d| match d {
+        penne::alpha::resolved::Declaration::Function { body, .. } => body.statements.iter().map(|s| misplaced_loops_in(s, false)).sum(),
+        _ => 0,
+    }).sum()
+}
+
 fn alpha_rest_full(decls: Vec<penne::alpha::common::Declaration>) -> (String, Vec<penne::alpha::error::Error>) {
     if let Err(errors) = penne::alpha::resolver::check_surface_level_errors(&decls) {
         let errors = errors.sorted();
@@ -65,11 +87,12 @@ fn alpha_rest_full(decls: Vec<penne::alpha::common::Declaration>) -> (String, Ve
     let lints: Vec<penne::alpha::linter::Lint> = linter.into();
     let lint_codes: Vec<u16> = lints.iter().map(|x| x.code()).collect();
     // diag: FNV-1a hash of the complete diagnostics (variants, names, locations) in their reported order (C13: determinism)
+    let loops = match &acc { Ok(decls) => misplaced_loops(decls), Err(_) => 0 };
     let (codes, dump, errs) = match acc { Ok(_) => (Vec::new(), String::new(), Vec::new()), Err(e) => (e.codes(), format!("{:?}", e), e.errors) };
     let dump = format!("{}|{:?}", dump, lints);
     let mut h: u64 = 0xcbf29ce484222325;
     for b in dump.bytes() { h ^= b as u64; h = h.wrapping_mul(0x100000001b3); }
-    (format!("errors={:?} lints={:?} stage=resolved diag={:016x}", codes, lint_codes, h).replace(", ", ","), errs)
+    (format!("errors={:?} lints={:?} stage=resolved diag={:016x} misplaced_loops={}", codes, lint_codes, h, loops).replace(", ", ","), errs)
 }
 
 fn main() {
